@@ -28,5 +28,27 @@ int main() {
     { State s = s0; s.updQ() = Vector(4, 0.0);
       try { system.project(s, 1e-6); std::printf("System::project(s,1e-6) returned normally (no exception); q[0] = %g\n", s.getQ()[0]); }
       catch (const std::exception& e) { std::printf("System::project threw\n"); } }
+
+    // Second trigger, FINITE ordinary input, velocity level: a Pin with the nonholonomic constraint 1 + u^2/2 = 0 (no real
+    // solution).  projectU's fixed-Jacobian Newton iteration started at u = 1e-7 grows super-exponentially, u overflows within
+    // its 7 iterations, the error norm becomes NaN and the call reports Succeeded.
+    {
+        MultibodySystem sys2; SimbodyMatterSubsystem m2(sys2);
+        MobilizedBody::Pin p1(m2.Ground(), Transform(), body, Transform());
+        Vector coef(3); coef[0] = 0.5; coef[1] = 0; coef[2] = 1;            // 0.5 u^2 + 0 u + 1
+        Array_<MobilizedBodyIndex> mb; Array_<MobilizerUIndex> ui; mb.push_back(p1.getMobilizedBodyIndex()); ui.push_back(MobilizerUIndex(0));
+        Constraint::SpeedCoupler(m2, new Function::Polynomial(coef), mb, ui);
+        State s = sys2.realizeTopology(); sys2.realizeModel(s);
+        s.updU()[0] = 1e-7;
+        sys2.realize(s, Stage::Velocity);
+        ProjectOptions o(1e-6); o.setOption(ProjectOptions::DontThrow);
+        ProjectResults r; Vector none;
+        sys2.projectU(s, none, o, r);
+        std::printf("projectU: status=%d (0=Succeeded) iterations=%d normOnEntrance=%g normOnExit=%g  u = %g  uerr = %g\n",
+                    (int)r.getExitStatus(), r.getNumIterations(), r.getNormOnEntrance(), r.getNormOnExit(), s.getU()[0], s.getUErr()[0]);
+        State t = sys2.realizeTopology(); sys2.realizeModel(t); t.updU()[0] = 1e-7;
+        try { sys2.project(t, 1e-6); std::printf("System::project(t,1e-6) returned normally (no exception); u = %g\n", t.getU()[0]); }
+        catch (const std::exception& e) { std::printf("System::project threw\n"); }
+    }
     return 0;
 }
